@@ -498,3 +498,23 @@ def pair_harness_src(name, sk, fault=True, twin=False, text=None, xs_len=2, int_
     lines[1] = "S_%s = None" % name
     out = "\n".join(lines).replace("_sk.agree_pair(P_%s, S_%s, " % (name, name), "_sk.agree_pair(P_%s, " % name)
     return out, text
+
+
+def box(v, lo, hi):
+    """Fold an unconstrained symbolic int into lo..hi and make it concrete by explicit forks.
+    (Preconditions on ints make CrossHair spend most paths on values that violate them; folding has no rejected paths.)"""
+    r = lo + (v % (hi - lo + 1))
+    for c in range(lo, hi + 1):
+        if r == c:
+            return c
+    return lo
+
+
+def pick_str(alph, idxs):
+    """Concrete string from selector ints (each folded into -1..len(alph)-1; -1 = no character)."""
+    out = ""
+    for i in idxs:
+        k = box(i, -1, len(alph) - 1)
+        if k >= 0:
+            out += alph[k]
+    return out
